@@ -25,6 +25,12 @@ pub const DEFAULT_FUEL: u64 = 60_000;
 
 thread_local! {
     static LAST_PANIC: RefCell<String> = const { RefCell::new(String::new()) };
+    static FUEL_OVERRIDE: Cell<Option<u64>> = const { Cell::new(None) };
+}
+
+/// per-thread step budget given to every new instance (None = DEFAULT_FUEL)
+pub fn set_fuel_override(f: Option<u64>) {
+    FUEL_OVERRIDE.with(|x| x.set(f));
 }
 
 /// Install (once per process) a panic hook that records location+message instead of printing.
@@ -448,7 +454,7 @@ pub const N_OBSERVERS: usize = 3;
 impl Inst {
     pub fn new(prog: &Rc<Prog>, setup: &Setup) -> Result<Inst, String> {
         verif::set_forced_seed(Some(setup.seed.unwrap_or(DEFAULT_SEED)));
-        verif::set_fuel(Some(DEFAULT_FUEL));
+        verif::set_fuel(Some(FUEL_OVERRIDE.with(|f| f.get()).unwrap_or(DEFAULT_FUEL)));
         verif::set_async_budget(None);
         let log = Rc::new(SharedLog {
             events: RefCell::new(Vec::new()),
